@@ -99,7 +99,14 @@ func (ex *Exec) lookupType(pkg *types.Package, s string) types.Type {
 			}
 			if j := strings.Index(rest, "."); j > 0 {
 				pn, tn := rest[:j], rest[j+1:]
-				for _, imp := range pkg.Imports() {
+				var cands []*types.Package
+				cands = append(cands, pkg.Imports()...)
+				for _, p := range ex.prog.pkgs {
+					if p.Types != nil && p.Types.Name() == pn {
+						cands = append(cands, p.Types)
+					}
+				}
+				for _, imp := range cands {
 					if imp.Name() == pn {
 						if o := imp.Scope().Lookup(tn); o != nil {
 							var t types.Type = o.Type()
